@@ -252,8 +252,10 @@ __wrap_recv(int s, void * buf, size_t len, int flags)
 			if (wh.seg_left == 0)
 				continue;
 		} else if (wh.pos < wh.streamlen) {
-			/* Unscripted rest arrives as one segment. */
+			/* Unscripted rest: segments of segrep bytes, or all at once. */
 			wh.seg_left = wh.streamlen - wh.pos;
+			if ((wh.segrep != 0) && (wh.seg_left > wh.segrep))
+				wh.seg_left = wh.segrep;
 		} else {
 			switch (wh.ending) {
 			case 'e':
